@@ -153,7 +153,7 @@ fn generate_serialize_variant_arm(
     has_lifetimes: bool,
 ) -> Result<TokenStream2, Error> {
     let variant_name = &variant.ident;
-    let qualified_name = format!("{interface}.{variant_name}");
+    let qualified_name = qualified_error_name(variant, interface);
 
     match &variant.fields {
         // Unit variant - serialize as tagged enum with just error field.
@@ -255,8 +255,9 @@ fn generate_deserialize_with_derive(
     // Now modify the variants.
     for (i, variant) in modified_enum.variants.iter_mut().enumerate() {
         let field_info = &variant_field_info[i];
-        let variant_name = &variant.ident;
-        let qualified_name = format!("{interface}.{variant_name}");
+        let qualified_name = qualified_error_name(variant, interface);
+        // The helper enum only derives `Deserialize`, which knows no `zlink` attributes.
+        variant.attrs.retain(|attr| !attr.path().is_ident("zlink"));
 
         // Add rename attribute for the variant.
         variant
@@ -355,6 +356,14 @@ fn generate_deserialize_with_derive(
             }
         }
     })
+}
+
+/// The error's name on the wire: `<interface>.<variant>`, where the variant goes by its
+/// `#[zlink(rename = "...")]` name if it has one.
+fn qualified_error_name(variant: &syn::Variant, interface: &str) -> String {
+    let name = parse_zlink_string_attr(&variant.attrs, "rename")
+        .unwrap_or_else(|| variant.ident.to_string());
+    format!("{interface}.{name}")
 }
 
 /// Field information extracted from named fields for reuse across
